@@ -165,6 +165,7 @@ void World::turn_end() {
 	last_fed_client = -1;
 	for (auto &cl : clients) if (cl.msg_done_turn) { cl.msg_done_turn = false; if (cl.accepted && !cl.daemon_closed && (cl.rx_off < cl.rx.size() || cl.eof || cl.hup || cl.rx_err)) { KFd *kk = g_kernel.get(cl.fd); if (kk) g_kernel.mark_pending(*kk); } }
 	c10_turn_end();
+	shadow_settle_unexplained(true);
 	for (auto &cl : clients) cl.write_attempts_turn = 0;
 	if (mode == "exact") {
 		resolve_silent_decisions();
@@ -311,6 +312,7 @@ bool World::match_close(Client &cl) {
 }
 
 void World::resolve_silent_decisions() {
+	model_version++;
 	for (int d : model.silent_decisions()) {
 		model.resolve_decision(d, model.decisions[d].silent_accept);
 		for (auto &c2 : clients) for (size_t i = 0; i < c2.expq.size();) { if (c2.expq[i].decision == d && c2.expq[i].optional) c2.expq.erase(c2.expq.begin() + i); else i++; }
@@ -318,6 +320,7 @@ void World::resolve_silent_decisions() {
 }
 
 void World::after_match(Client &cl, const Exp &e, const Frame &f) {
+	model_version++;
 	int d = e.decision;
 	if (e.kind == Exp::RESP) { const JV *id = f.j.get("id"); if (id && (id->t == JV::Str || id->t == JV::Num)) { auto it = cl.ledger.find(idkey(*id)); if (it != cl.ledger.end() && it->second > 0) it->second--; } }
 	if (e.kind == Exp::ROUTED) model.on_routed_seen(e.routed_ref, f.j.gets("id"));
@@ -430,7 +433,7 @@ void World::on_frame(Client &cl, const Frame &f) {
 		for (auto &c2 : clients) for (size_t i = 0; i < c2.expq.size();) { Exp &x = c2.expq[i]; if (x.optional && x.decision >= 0 && x.decision < (int)model.decisions.size() && model.decisions[x.decision].state != 0) c2.expq.erase(c2.expq.begin() + (long)i); else i++; }
 	}
 	if (cl.closing || cl.no_expect || cl.faulty) return;
-	if (mode == "ledger") { ledger_frame(cl, f); shadow_check_get(cl, f); return; }
+	if (mode == "ledger") { ledger_frame(cl, f); shadow_check_get(cl, f); shadow_check_notify(cl, f); return; }
 	if (mode != "exact") return;
 	std::string why;
 	for (;;) {
